@@ -108,7 +108,7 @@ func (i *interpreter) deepEq(t types.Type, x, y value, seen map[[2]*value]bool, 
 	case *types.Map:
 		if dx, ok := x.(*docMap); ok {
 			dy, ok := y.(*docMap)
-			return b2s(ok && (dx == nil) == (dy == nil) && (dx == nil || dx.n == dy.n))
+			return b2s(ok && (dx == nil) == (dy == nil) && (dx == nil || dx.n.canon() == dy.n.canon()))
 		}
 		if sx, ok := x.(*symMap); ok {
 			sy, ok := y.(*symMap)
@@ -123,7 +123,7 @@ func (i *interpreter) deepEq(t types.Type, x, y value, seen map[[2]*value]bool, 
 			}
 			res := tt
 			for k := range sx.keys {
-				if sx.keys[k] != sy.keys[k] {
+				if sx.keys[k].canon() != sy.keys[k].canon() {
 					return ff
 				}
 				res = symAnd(res, i.deepEq(u.Elem(), sx.vals[k], sy.vals[k], seen, ignore))
